@@ -112,10 +112,10 @@ def harnesses(tier):
     hs = []
     if tier == "quick":
         fpi = [(1, 1, False, 60), (2, 1, False, 60), (1, 2, False, 60), (2, 2, False, 300)]
-        un = [(1, 0, 30), (1, 1, 60), (2, 1, 120), (2, 2, 300)]
+        un = [(1, 0, 30), (2, 0, 60), (0, 2, 60), (3, 0, 120), (1, 1, 60), (2, 1, 120), (2, 2, 300)]
     else:
         fpi = [(1, 1, False, 60), (2, 2, False, 300), (3, 2, False, 1800), (2, 3, False, 1800), (3, 3, True, 1800), (4, 2, True, 1800), (2, 4, True, 1800)]
-        un = [(1, 0, 30), (1, 1, 60), (2, 2, 300), (3, 2, 1800), (3, 3, 3600)]
+        un = [(1, 0, 30), (2, 0, 60), (0, 2, 60), (3, 0, 120), (0, 4, 600), (1, 1, 60), (2, 2, 300), (3, 2, 1800), (3, 3, 3600)]
     for n1, n2, ordered, budget in fpi:
         hs.append((Harness(PROP, "intersect-%d+%d-%s" % (n1, n2, "sorted" if ordered else "anyorder"), h_fpi, dict(n1=n1, n2=n2, ordered=ordered),
                            "filter_period_intersect, %d events x %d filter events" % (n1, n2), split_depth=7), budget))
